@@ -239,7 +239,6 @@ theorem nt_rule_step (fuel : Nat) (hR : NTRule ctx fuel)
       · split at h
         · simp only [Except.ok.injEq, Prod.mk.injEq, true_and] at h; exact h.symm
         · split at h
-          · cases h
           · simp only [Except.ok.injEq, Prod.mk.injEq, true_and] at h; exact h.symm
           · simp at h
     | some rule =>
@@ -251,7 +250,6 @@ theorem nt_rule_step (fuel : Nat) (hR : NTRule ctx fuel)
         · split at h
           · simp only [Except.ok.injEq, Prod.mk.injEq, true_and] at h; exact h.symm
           · split at h
-            · cases h
             · simp only [Except.ok.injEq, Prod.mk.injEq, true_and] at h; exact h.symm
             · split at h
               · cases h
@@ -969,7 +967,6 @@ theorem ex_rule_step (fuel : Nat) (hR : ExRule ctx fuel) (hAl : ExAll ctx fuel)
       · split at h
         · simp only [Except.ok.injEq] at h; subst h; exact EnvLe.refl _ _
         · split at h
-          · cases h
           · simp only [Except.ok.injEq] at h; subst h; exact EnvLe.refl _ _
           · simp only [Except.ok.injEq] at h; subst h; exact EnvLe.refl _ _
     | some rule =>
@@ -981,7 +978,6 @@ theorem ex_rule_step (fuel : Nat) (hR : ExRule ctx fuel) (hAl : ExAll ctx fuel)
         · split at h
           · simp only [Except.ok.injEq] at h; subst h; exact EnvLe.refl _ _
           · split at h
-            · cases h
             · simp only [Except.ok.injEq] at h; subst h; exact EnvLe.refl _ _
             · split at h
               · cases h
@@ -1313,7 +1309,6 @@ theorem mo_rule_step (fuel : Nat) (hR : MoRule ctx fuel) (hAl : MoAll ctx fuel)
           · next hi =>
             (try simp only); rw [hi]; (try simp only)
             split at h
-            · exact h
             · exact h
             · split at h
               · cases h
